@@ -60,6 +60,11 @@ struct Data {
 }
 
 fn draw_labels(rng: &mut Rng, k: usize) -> (Vec<f64>, &'static str) {
+    if k > 16 {
+        // many classes (the `many_classes` family): spaced integers from a random start, or quarter steps
+        let start = rng.int(-500, 500) as f64;
+        return if rng.bool(0.5) { ((0..k).map(|j| start + 3.0 * j as f64).collect(), "spaced-integers") } else { ((0..k).map(|j| start + 0.25 * j as f64).collect(), "quarter-steps") };
+    }
     for _ in 0..100 {
         let kind = rng.below(9);
         if kind >= 7 {
@@ -125,7 +130,15 @@ fn draw_data(c: &mut Case, k: usize, mixed: bool) -> Data {
 fn draw_data_mode(c: &mut Case, k: usize, mixed: bool, corner: bool) -> Data {
     let rng = &mut c.rng;
     let p = if corner { rng.us(3, 6) } else if mixed { rng.us(2, 6) } else { rng.us(1, 6) };
-    let n = if corner { rng.us(85, 100) } else if rng.bool(0.4) { rng.us(6.max(k), 20) } else { rng.us(6.max(k), 100) };
+    let n = if k > 16 {
+        rng.us(2 * k, 3 * k)
+    } else if corner {
+        rng.us(85, 100)
+    } else if rng.bool(0.4) {
+        rng.us(6.max(k), 20)
+    } else {
+        rng.us(6.max(k), 100)
+    };
     let layout: &'static str = *rng.pick(&["overlap", "overlap", "moderate", "separable", "separable"]);
     // class membership: every class present, otherwise by random (possibly very unbalanced) weights
     let wts: Vec<f64> = (0..k).map(|_| if rng.bool(0.2) { rng.uni(0.02, 0.2) } else { rng.uni(0.5, 1.0) }).collect();
@@ -535,13 +548,14 @@ struct Fitted {
 
 /// fits and extracts the parameter vector in the reference layout; reports shape / panic / Err violations
 fn fit(c: &mut Case, d: &Data, alpha: f64, sg: &str, verdict: bool) -> Option<Fitted> {
+    let idx = c.index;
     let xm: DenseMatrix<f64> = to_dense(&d.x);
     let y: Vec<f64> = d.yi.iter().map(|&i| d.labels[i]).collect();
     let params = LogisticRegressionParameters::default().with_alpha(alpha);
     let res = if verdict {
-        c.must("lr.fit", || LogisticRegression::fit(&xm, &y, params))
+        c.must("lr.fit", || LogisticRegression::fit(&xm, &y, scverif::reused(idx, params)))
     } else {
-        match guard(|| LogisticRegression::fit(&xm, &y, params)) {
+        match guard(|| LogisticRegression::fit(&xm, &y, scverif::reused(idx, params))) {
             Ok(r) => Some(r),
             Err(p) => {
                 if p.in_harness() {
